@@ -16,7 +16,7 @@ RULE = (
     "/ unbalanced / unknown / invalid-colour style tags, trailing backslash) x verbosity x ANSI with the origin cycling "
     "over {generated module, recursion depth 1..60, mutual recursion, callers whose call spans several source lines, exec'd code with filename <string> / empty / "
     "deleted file, explicit and implicit cause chains up to depth 3}; pre-handle listeners {absent, passes, handles "
-    "with status s, raises}; plus Hypothesis cases with generated messages. Non-trivial: an exception whose message or "
+    "with status s, raises}; plus Hypothesis cases with generated messages. handlers come with five shapes (strict / defaulted / *args signature, a callable wrapped by CallbackHandler, an object with a custom handler method) and nineteen exception types. Non-trivial: an exception whose message or "
     "origin is not plain, or a return value outside {0, None}. Every enumerated cell is distinct by construction."
 )
 ASSUMPTIONS = [
@@ -51,7 +51,7 @@ MESSAGES = {
 EXC_KINDS = ["ValueError", "RuntimeError", "KeyError", "UserError", "LibCustom", "LibCannotParse", "LibNoSuchOption",
              "KeyboardInterrupt", "CodeInt", "CodeStr", "CodeNone", "OSError", "AssertionError",
              "TypeError", "AttributeError", "ZeroDivisionError", "StopIteration", "NotImplementedError", "IndexError"]
-SIGNATURES = ["strict", "flexible", "varargs"]
+SIGNATURES = ["strict", "flexible", "varargs", "callback", "method"]
 ORIGINS = ["module", "deep:1", "deep:7", "deep:60", "pingpong:5", "exec:<string>", "exec:", "exec:deleted",
            "chain:1:explicit", "chain:3:implicit", "chain:2:explicit", "multiline", "multiline-nested"]
 LINES = [(["run"], {"a1": None}, {}), (["run", "v1"], {"a1": "v1"}, {}), (["run", "--foo", "v1"], {"a1": "v1"}, {"foo": True}),
@@ -139,9 +139,9 @@ def build(case, log):
 
     outcome = case["outcome"]
 
-    def body(args, io, command):
+    def body(args, io, command, needs_command=True):
         log.append(("run", args.arguments(False), args.options(False)))
-        if command is None or command.name != "run":
+        if needs_command and (command is None or command.name != "run"):
             log.append(("wrong-command-object", repr(command)))
         if outcome["kind"] == "return":
             return RETURNS[outcome["value"]]
@@ -159,6 +159,21 @@ def build(case, log):
         class RunHandler(object):
             def handle(self, *a):
                 return body(a[0], a[1], a[2] if len(a) > 2 else None)
+    elif signature == "method":
+        # a handler object whose entry point has another name (set_handler_method)
+        class RunHandler(object):
+            def execute(self, args, io, command):
+                return body(args, io, command)
+
+            def handle(self, args, io, command):
+                log.append(("other",))
+                return 0
+    elif signature == "callback":
+        # a plain callable wrapped by the library's CallbackHandler (it is called with args and io only)
+        from clikit.handler.callback_handler import CallbackHandler
+
+        def RunHandler():
+            return CallbackHandler(lambda args, io: body(args, io, None, needs_command=False))
     else:
         class RunHandler(object):
             def handle(self, args, io, command):
@@ -175,6 +190,8 @@ def build(case, log):
     run.add_argument("a1", Argument.OPTIONAL, "arg")
     run.add_option("foo", "f", Option.NO_VALUE, "flag")
     run.set_handler(RunHandler())
+    if signature == "method":
+        run.set_handler_method("execute")
     other = CommandConfig("other")
     other.set_handler(OtherHandler())
     sub = CommandConfig("sub")
@@ -323,6 +340,7 @@ def enumerated_cases(tier):
             for a in ansis:
                 n += 1
                 yield {"line": n % len(LINES), "verbosity": v, "ansi": a, "listener": "absent",
+                       "signature": SIGNATURES[(n // 2) % len(SIGNATURES)],
                        "outcome": {"kind": "return", "value": rv}}
     k = 0
     for ek in EXC_KINDS:
